@@ -77,13 +77,16 @@ Definition is_name_char (c : N) : bool := is_word c || (c =? 58).
 
 Definition placeholder_at (s : str) : option (stok * str) :=
   match s with
-  | 36 :: 123 :: r =>
-      let '(bang, r0) := match r with 33 :: r' => (true, r') | _ => (false, r) end in
-      let '(name, r1) := span is_name_char r0 in
-      match name, r1 with
-      | _ :: _, 125 :: r2 => Some (if bang then TBang name else TVar name, r2)
-      | _, _ => None
-      end
+  | c0 :: c1 :: r =>
+      if (c0 =? 36) && (c1 =? 123) then
+        let bang := match r with c2 :: _ => c2 =? 33 | [] => false end in
+        let r0 := if bang then tl r else r in
+        let '(name, r1) := span is_name_char r0 in
+        match name, r1 with
+        | _ :: _, c3 :: r2 => if c3 =? 125 then Some (if bang then TBang name else TVar name, r2) else None
+        | _, _ => None
+        end
+      else None
   | _ => None
   end.
 
